@@ -69,7 +69,7 @@ theorem ext_ite {s a b : S} {p : Prop} [Decidable p] (ha : Ext s a) (hb : Ext s 
   split <;> assumption
 
 theorem logData_outs (c : Cfg) (d : Bytes) (s : S) : Ext s (logData c d s) := by
-  simp only [logData, guard]
+  simp only [logData, mainCopy_id, guard]
   refine ext_ite (Ext.refl _) (ext_ite ?_ (Ext.refl _))
   have hs1 := fun (p : Prop) (q : Prop) (_ : Decidable p) (_ : Decidable q) (f : D → D) (o : Out) =>
     (ext_ite (p := p) (ext_ite (p := q) (ext_setP f s) (ext_emit o s)) (Ext.refl s))
@@ -149,9 +149,9 @@ theorem logData_plain' (c : Cfg) (d : Bytes) (s : S) (he : s.err = none) (hm : s
   simp only at he hm
   subst he hm
   cases d with
-  | nil => simp [logData, guard, log_g0]
+  | nil => simp [logData, mainCopy_id, guard, log_g0]
   | cons x xs =>
-    simp only [logData, guard, log_g0, log_g1, log_g2, log_g5, log_g6, log_g7, log_g8, toggle_g0, evOn,
+    simp only [logData, mainCopy_id, guard, log_g0, log_g1, log_g2, log_g5, log_g6, log_g7, log_g8, toggle_g0, evOn,
       emit, setP]
     cases hasLog <;> cases isStdout <;> cases outEv <;> cases errEv <;> cases strip <;> simp
 
@@ -508,12 +508,12 @@ theorem pinv_logData (c : Cfg) (hl : c.hasLog = true) (hev : evOn c = true) (d :
   simp only [PInv, Match, evOn] at *
   subst hl
   cases err with
-  | some e => simpa [logData, guard] using ⟨h1, h2⟩
+  | some e => simpa [logData, mainCopy_id, guard] using ⟨h1, h2⟩
   | none =>
     cases d with
-    | nil => simpa [logData, guard, log_g0] using ⟨h1, h2⟩
+    | nil => simpa [logData, mainCopy_id, guard, log_g0] using ⟨h1, h2⟩
     | cons x xs =>
-      simp only [logData, guard, log_g0, log_g1, log_g2, log_g5, log_g6, log_g7, log_g8, toggle_g0, emit, setP]
+      simp only [logData, mainCopy_id, guard, log_g0, log_g1, log_g2, log_g5, log_g6, log_g7, log_g8, toggle_g0, emit, setP]
       cases mode
       · cases isStdout <;> simp_all [plogChunks_append, logChunks_append, plogChunks, logChunks]
       · have hcm : capMax ≠ 0 := fun h0 => by simpa using h1 h0
@@ -609,9 +609,9 @@ theorem no_plog_when_disabled (c : Cfg) (hev : evOn c = false) (chunks : List By
     obtain ⟨capMax, hasLog, strip, isStdout, outEv, errEv, btok, etok⟩ := c
     simp only [evOn] at hev
     cases err with
-    | some e => simpa [logData, guard] using h
+    | some e => simpa [logData, mainCopy_id, guard] using h
     | none =>
-      simp only [logData, guard, log_g0, log_g1, log_g2, log_g5, log_g6, log_g7, log_g8, toggle_g0, emit, setP]
+      simp only [logData, mainCopy_id, guard, log_g0, log_g1, log_g2, log_g5, log_g6, log_g7, log_g8, toggle_g0, emit, setP]
       cases hasLog <;> cases isStdout <;> cases outEv <;> cases errEv <;> cases mode <;>
         simp_all [plogChunks_append, plogChunks] <;> (repeat' split) <;> simp_all [plogChunks_append, plogChunks]
   have htog : ∀ (s : S), plogChunks s.outs = [] → plogChunks (toggle c s).outs = [] := by
@@ -713,6 +713,141 @@ example :
                      btok := stdout_BEGIN, etok := stdout_END }
     (sysLookup 5 (sysRun [(5, [1]), (7, [2]), (5, [3])] [(5, c, init), (7, c, init)])).map (fun cs => loggedOf cs.2.outs)
       = some [1, 3] := by decide
+
+/-! ### the daemon's own log level -/
+
+/-- every strict conversion of a chunk to text in `_log` (the copy into supervisord's own log when
+    `loglevel <= DEBG`) sits in a `try` whose handlers catch UnicodeDecodeError -/
+theorem debug_copy_decodes_guarded : ∀ site ∈ logDecodeSites, Py.catchesDecodeError site.2 = true := by
+  have h := log_decode_sites_guarded
+  rw [List.all_eq_true] at h
+  exact h
+
+/-- **the debug-level copy never raises and changes nothing observable**: for every configuration
+    (any log level), capture mode, chunk (valid UTF-8 or not) and state -/
+theorem debug_copy_is_silent (c : Cfg) (m : Bool) (d : Bytes) (s : S) : mainCopy c m d s = s := mainCopy_id c m d s
+
+/-- **`_log` does the same at every daemon log level** — to the log, the capture buffer and the event
+    stream, for every chunk.  (All theorems of this file are stated for every `c : Cfg`, hence for
+    `mainlog = true` as well as `false`.) -/
+theorem log_level_irrelevant (c : Cfg) (b : Bool) (d : Bytes) (s : S) :
+    logData { c with mainlog := b } d s = logData c d s := by
+  simp only [logData, mainCopy_id]
+
+theorem performAll_err (c : Cfg) (acts : List Act) : ∀ s : S, s.err = none → (performAll c acts s).err = none := by
+  induction acts with
+  | nil => intro s h; exact h
+  | cons a as ih =>
+    intro s h
+    simp only [performAll, List.foldl_cons]
+    apply ih
+    cases a with
+    | data d => simpa [perform, h] using (logData_keeps c d s).1
+    | toggle => exact (toggle_keeps c s h).1
+
+/-- **no read ever lets an exception out of the dispatcher**, at any daemon log level, for any bytes
+    (valid UTF-8 or not), in any dispatcher state: neither the decode of the debug-level copy nor
+    the recursion of `record_output` -/
+theorem read_never_raises (c : Cfg) (x : Bytes) (s : S) (he : s.err = none) : (readEvent c x s).err = none := by
+  have hs1 : (setP (fun p => { p with buf := hre_a1 p.buf x }) s).err = none := by simp [setP, guard, he]
+  have hrec : ∀ (eof : Bool) (t : S), t.err = none → (recordOutput c eof t).err = none := by
+    intro eof t ht
+    simp only [recordOutput, guard, ht, Option.isSome_none, Bool.false_eq_true, if_false,
+      scan_fuel c eof _ t.p.mode t.p.buf (Nat.lt_succ_self _)]
+    exact performAll_err c _ _ (by simp [setP, guard, ht])
+  have hclose : ∀ t : S, t.err = none → (close t).err = none := by
+    intro t ht
+    simp only [close, guard, ht, Option.isSome_none, Bool.false_eq_true, if_false]
+    split <;> simp [emit, setP, guard, ht]
+  simp only [readEvent, guard, he, Option.isSome_none, Bool.false_eq_true, if_false]
+  split
+  · exact hclose _ (hrec _ _ hs1)
+  · exact hrec _ _ hs1
+
+-- why the guard matters: with a handler for the wrong class an undecodable chunk raises at debug
+-- level (after the chunk went to the child log, before its PROCESS_LOG event), not at info level
+example : (mainCopyWith [("data.decode('utf-8')", ["UnicodeEncodeError"])] { exCfg with mainlog := true } false [0x63, 0xC3] init).err
+    = some .decode := by decide
+example : (mainCopyWith [("data.decode('utf-8')", ["UnicodeEncodeError"])] { exCfg with mainlog := false } false [0x63, 0xC3] init).err
+    = none := by decide
+example : (mainCopyWith [("data.decode('utf-8')", ["UnicodeEncodeError"])] { exCfg with mainlog := true } false [0x63, 0xC3, 0xA9] init).err
+    = none := by decide
+-- the decoder: "é", a cut "é", a lone continuation byte, 0xFF, an overlong NUL, a surrogate, U+10FFFF, above it
+example : Py.utf8Valid [0xC3, 0xA9] = true ∧ Py.utf8Valid [0x63, 0xC3] = false ∧ Py.utf8Valid [0xA9] = false ∧
+    Py.utf8Valid [0xFF] = false ∧ Py.utf8Valid [0xC0, 0x80] = false ∧ Py.utf8Valid [0xED, 0xA0, 0x80] = false ∧
+    Py.utf8Valid [0xF4, 0x8F, 0xBF, 0xBF] = true ∧ Py.utf8Valid [0xF4, 0x90, 0x80, 0x80] = false ∧
+    Py.utf8Valid [0xE2, 0x82, 0xAC, 0x41] = true ∧ Py.utf8Valid [0xE2, 0x82] = false := by decide
+
+/-! ### what one read takes out of a pipe; nothing is missing after the reap -/
+
+/-- `os.read(fd, n)` on a pipe holding `pending`: at most `n` bytes, the rest stays in the pipe -/
+def pipeRead (n : Nat) (pending : Bytes) : Bytes × Bytes := (pending.take n, pending.drop n)
+
+/-- what a Linux pipe holds (16 pages, the default; a child that enlarges its pipe with
+    F_SETPIPE_SZ is outside the claim): the most that can be unread when the child is reaped -/
+def pipeCapacity : Nat := 65536
+
+/-- `options.readfd(fd)`: one `os.read` of the regenerated size -/
+def readfd (pending : Bytes) : Bytes × Bytes := pipeRead readfdSize pending
+
+/-- the size `readfd` asks for is at least what a pipe holds -/
+theorem read_size_covers_pipe : pipeCapacity ≤ readfdSize := by decide
+
+/-- **one read empties the pipe**: whatever a child left in its pipe, the single
+    `handle_read_event()` that `finish()` → `drain()` performs returns all of it -/
+theorem readfd_drains (pending : Bytes) (h : pending.length ≤ pipeCapacity) : readfd pending = (pending, []) := by
+  have hle : pending.length ≤ readfdSize := Nat.le_trans h read_size_covers_pipe
+  simp [readfd, pipeRead, List.take_of_length_le hle, List.drop_eq_nil_of_le hle]
+
+/-- what `Subprocess.finish()` does with an output dispatcher: `drain()` (one `handle_read_event`,
+    i.e. one `readfd`), then `record_output(eof=True)` -/
+def reap (c : Cfg) (pending : Bytes) (s : S) : S := recordOutput c true (readEvent c (readfd pending).1 s)
+
+theorem feed_capture_off_state (c : Cfg) (hc : c.capMax = 0) (chunks : List Bytes) : ∀ (s : S),
+    s.err = none → s.p.mode = false → s.p.buf = [] →
+    (feedAll c chunks s).err = none ∧ (feedAll c chunks s).p.mode = false ∧ (feedAll c chunks s).p.buf = [] := by
+  induction chunks with
+  | nil => intro s h1 h2 h3; exact ⟨h1, h2, h3⟩
+  | cons x xs ih =>
+    intro s h1 h2 h3
+    obtain ⟨a, b, d, _, _⟩ := read_capture_off' c hc x s h1 h2 h3
+    simpa [feedAll] using ih _ a b d
+
+/-- the final flush finds nothing when capture is off -/
+theorem flush_capture_off (c : Cfg) (hc : c.capMax = 0) (s : S) (he : s.err = none) (hb : s.p.buf = []) :
+    (recordOutput c true s).outs = s.outs := by
+  obtain ⟨⟨mode, buf, cap, closed⟩, outs, err⟩ := s
+  simp only at he hb
+  subst he hb
+  have hscan : scanGo c true 1 mode [] = ⟨[.data []], mode, [], false⟩ := by
+    unfold scanGo
+    simp [record_output_g0, record_output_a0, record_output_a1, hc]
+  simp [recordOutput, guard, hscan, performAll, perform, logData, log_g0, setP]
+
+/-- **nothing is missing after the reap** (capture and strip off): whatever the fragmentation of
+    what was read while the child lived, and whatever it left in the pipe (up to what a pipe
+    holds), after `finish()` the log holds exactly everything the child wrote, in order. -/
+theorem reap_complete (c : Cfg) (hc : c.capMax = 0) (hst : c.strip = false) (hl : c.hasLog = true)
+    (chunks : List Bytes) (pending : Bytes) (hp : pending.length ≤ pipeCapacity) :
+    loggedOf (reap c pending (feedAll c chunks init)).outs = chunks.flatten ++ pending := by
+  have hfeed : readEvent c pending (feedAll c chunks init) = feedAll c (chunks ++ [pending]) init := by
+    simp [feedAll, List.foldl_append]
+  obtain ⟨e1, _, e3⟩ := feed_capture_off_state c hc (chunks ++ [pending]) init rfl rfl rfl
+  simp only [reap, readfd_drains pending hp, hfeed]
+  rw [flush_capture_off c hc _ e1 e3, (no_capture_concat c hc hst hl (chunks ++ [pending])).2]
+  simp
+
+-- non-vacuity: 3 bytes read while alive, 70000 > 65536 cannot be pending, 40000 can
+example : (readfd (List.replicate 40000 0x61)).2 = [] := by
+  rw [readfd_drains _ (by rw [List.length_replicate]; decide)]
+
+/-- a smaller read size would lose output at reap time: with 8K reads, 8193 pending bytes are not drained -/
+example : (pipeRead 8192 (List.replicate 8193 0x61)).2 ≠ [] := by
+  intro h
+  have := congrArg List.length h
+  simp only [pipeRead, List.length_drop, List.length_replicate, List.length_nil] at this
+  omega
+
 
 /-! ### redirect_stderr -/
 
